@@ -104,12 +104,13 @@ def c19_case(rec, root):
          "k": {"valid": "0.5", "edge": "1", "range": "1.5", "text": "abc"},
          "km": {"valid": "0.3", "edge": "0", "range": "-0.1", "text": "k"}}
     meta = []
+    legacy = c.get("legacy", False)
     if c["ameta"] != "absent":
-        meta.append("#META CTE_AREAREF: " + V["am"][c["ameta"]])
+        meta.append(("#META Area_ref: " if legacy else "#META CTE_AREAREF: ") + V["am"][c["ameta"]])
     if c["kmeta"] != "absent":
-        meta.append("#META CTE_KEXP: " + V["km"][c["kmeta"]])
+        meta.append(("#META kexp: " if legacy else "#META CTE_KEXP: ") + V["km"][c["kmeta"]])
     if c["lmeta"] != "absent":
-        meta.append("#META CTE_LOCALIZACION: " + c["lmeta"])
+        meta.append(("#META Localizacion: " if legacy else "#META CTE_LOCALIZACION: ") + c["lmeta"])
     if c["r1meta"] != "absent":
         meta.append("#META CTE_RED1: " + ("0.2, 1.2, 0.22" if c["r1meta"] == "valid" else "bad"))
     if c["r2meta"] != "absent":
@@ -131,6 +132,8 @@ def c19_case(rec, root):
         argv += ["--red1", "0.1", "1.1" if c["r1opt"] == "valid" else "x", "0.11"]
     if c["r2opt"] != "absent":
         argv += ["--red2", "0.15", "1.15" if c["r2opt"] == "valid" else "x", "0.115"]
+    if c.get("verbose"):
+        argv += ["-" + "v" * int(c["verbose"])]
     res = run_proc(argv, d)
     ev = {"ev": "Cli", "case": rec["case"], "tag": "cli", "cfg": c, "argv": argv, "obs": observe(res, d, fpath)}
     shutil.rmtree(d, ignore_errors=True)
